@@ -90,6 +90,9 @@ func accountInput(tx types.Tx) (common.Address, uint64, bool) {
 			}
 		}
 		return common.Address{}, 0, false
+	case *types.MultiSignAccountTx:
+		from, _ := t.From() // the fixed pseudo-account types.MultiSignNonceAddr
+		return from, t.Nonce(), true
 	case types.RegularTx:
 		from, err := t.From()
 		if err != nil {
@@ -147,6 +150,7 @@ func chainOpts(trie bool) minichain.Options {
 //	u0,u1 account->confidential of A with nonce 0,1    the nonce rule on the confidential-transaction path
 //	c0   contract creation of A with nonce 0           the nonce rule on the creation path
 //	k0   token transfer of A with nonce 0              the nonce rule on the token path
+//	m0   multi-signature account transaction, nonce 0  the nonce rule of the pseudo-account MultiSignNonceAddr
 func buildCatalogue() *catalogue {
 	c, err := minichain.New(chainOpts(false))
 	if err != nil {
@@ -197,6 +201,11 @@ func buildCatalogue() *catalogue {
 	add("u1", must(kit.AccountToUTXO(A, 1, []txkit.Dest{txkit.ToWallet(txkit.W2, 1, txkit.LKC(41))}, nil)))
 	add("c0", txkit.Create(A, 0, txkit.StoreContract(), nil))
 	add("k0", txkit.TokenTransfer(A, 0, txkit.GenesisToken, C.Addr, big.NewInt(12345)))
+	var signers []txkit.ValidatorSigner
+	for _, k := range c.Fixture().Keys[:3] { // 3 of 4 equal validators: > 2/3 of the power
+		signers = append(signers, txkit.SignerOf(k))
+	}
+	add("m0", txkit.MultiSign(0, types.TxContractCreateType, 20, []*types.SignerEntry{{Power: 10, Addr: A.Addr}, {Power: 10, Addr: B.Addr}}, signers))
 	// self-check of the collisions the alphabet is built for
 	k0, k1 := cat.get("s1").KIs[0], cat.get("s2").KIs[0]
 	for _, n := range []string{"s1x", "s1m", "s1a"} {
@@ -442,8 +451,8 @@ func validatorVerdict(v *minichain.Chain, parts *types.PartSet, maxBytes int) (b
 //     execution succeed, the proposer copies v's result fields into the header (they are public functions of the
 //     list) and sends that block.
 //
-// It returns the block v accepted (nil: refused everywhere) and where the decision fell.
-func offerBlock(p, v *minichain.Chain, txs types.Txs, fromPool bool) (b *types.Block, parts *types.PartSet, where string) {
+// It returns the block v accepted (nil: refused everywhere), where the decision fell, and the parts last shown to v.
+func offerBlock(p, v *minichain.Chain, txs types.Txs, fromPool bool) (b *types.Block, parts *types.PartSet, where string, offered *types.PartSet) {
 	maxBytes := p.Status().ConsensusParams.BlockSize.MaxBytes
 	partSize := p.Status().ConsensusParams.BlockGossip.BlockPartSizeBytes
 	var pb *types.Block
@@ -458,16 +467,16 @@ func offerBlock(p, v *minichain.Chain, txs types.Txs, fromPool bool) (b *types.B
 	if err == nil {
 		vb, vparts, ok, _ := validatorVerdict(v, pparts, maxBytes)
 		if !ok {
-			return nil, nil, "validator-rejects"
+			return nil, nil, "validator-rejects", pparts
 		}
-		return vb, vparts, "accepted"
+		return vb, vparts, "accepted", pparts
 	}
 	if !errors.Is(err, minichain.ErrPreRun) {
 		vk.Fatalf("MakeBlock: %v", err)
 	}
 	if fromPool {
 		// an honest proposer whose own pool handed it an unexecutable list: the node panics, nothing is sent
-		return nil, nil, "proposer-prerun-refuses-own-reap"
+		return nil, nil, "proposer-prerun-refuses-own-reap", nil
 	}
 	_, dparts, err := p.Propose(txs, false, 0, minichain.BlockOpts{SkipPreRun: true})
 	if err != nil {
@@ -475,10 +484,10 @@ func offerBlock(p, v *minichain.Chain, txs types.Txs, fromPool bool) (b *types.B
 	}
 	vb, vparts, ok, executed := validatorVerdict(v, dparts, maxBytes)
 	if ok {
-		return vb, vparts, "accepted-without-prerun"
+		return vb, vparts, "accepted-without-prerun", dparts
 	}
 	if !executed {
-		return nil, nil, "rejected"
+		return nil, nil, "rejected", dparts
 	}
 	// v executed the list although the proposer's PreRunBlock refused it: forge the header from v's result
 	pr := v.App().VerifProcessedResult(vb.Hash())
@@ -487,9 +496,9 @@ func offerBlock(p, v *minichain.Chain, txs types.Txs, fromPool bool) (b *types.B
 	fparts := fb.MakePartSet(partSize)
 	vb, vparts, ok, _ = validatorVerdict(v, fparts, maxBytes)
 	if ok {
-		return vb, vparts, "accepted-forged-header"
+		return vb, vparts, "accepted-forged-header", fparts
 	}
-	return nil, nil, "rejected-after-forging"
+	return nil, nil, "rejected-after-forging", fparts
 }
 
 // commitEverywhere commits an accepted block on the validator and on the node under test (which runs its own
